@@ -32,10 +32,17 @@ pub fn prop() -> Prop {
     }
 }
 
-crate::jser_struct! {
-    pub struct ListCase {
-        pub elems: Vec<KP>,
-        pub style: Vec<u16>,
+#[derive(Clone, Debug)]
+pub struct ListCase {
+    pub elems: Vec<KP>,
+    pub style: Vec<u16>,
+}
+impl crate::jser::Jser for ListCase {
+    fn to_j(&self) -> serde_json::Value {
+        serde_json::json!({"text": render(&self.elems, &self.style), "elems": self.elems.to_j(), "style": self.style.to_j()})
+    }
+    fn from_j(j: &serde_json::Value) -> Result<Self, String> {
+        Ok(ListCase { elems: Vec::<KP>::from_j(j.get("elems").ok_or("elems")?)?, style: Vec::<u16>::from_j(j.get("style").ok_or("style")?)? })
     }
 }
 
@@ -93,7 +100,13 @@ fn quote(s: &str, st: &mut St) -> String {
             }
             c if (c as u32) >= 0x10000 && sel % 8 == 7 => {
                 let v = c as u32 - 0x10000;
-                out.push_str(&format!("\\u{:04x}\\u{:04X}", 0xD800 + (v >> 10), 0xDC00 + (v & 0x3FF)));
+                let (hi, lo) = (0xD800 + (v >> 10), 0xDC00 + (v & 0x3FF));
+                match sel >> 9 & 3 {
+                    0 => out.push_str(&format!("\\u{hi:04x}\\u{lo:04X}")),
+                    1 => out.push_str(&format!("\\u{{{hi:04X}}}\\u{{{lo:04x}}}")),
+                    2 => out.push_str(&format!("\\u{hi:04X}\\u{{{lo:04X}}}")),
+                    _ => out.push_str(&format!("\\u{{{hi:04x}}}\\u{lo:04x}")),
+                }
             }
             c => out.push(c),
         }
@@ -164,7 +177,7 @@ pub fn check_list(c: &ListCase, obs: &mut Obs) -> Result<(), String> {
 }
 
 fn arb_elem() -> BoxedStrategy<KP> {
-    let names = ["a", "b", "key", "k1", "x_y", "测试", "Z", "e9", "_1", "a#b", "né"];
+    let names = ["a", "b", "key", "k1", "x_y", "测试", "Z", "e9", "_1", "a#b", "né", "²x", "½cup", "٣abc", "m²", "Ⅷ", "x٣"];
     prop_oneof![
         2 => prop_oneof![any::<i32>(), -3i32..4, Just(i32::MIN), Just(i32::MAX)].prop_map(KP::Index),
         2 => prop_oneof![arb_string(), Just(String::new()), Just("12".to_string()), Just("-1".to_string())].prop_map(KP::Quoted),
